@@ -213,6 +213,7 @@ class PyPaths:
 
     def __init__(self, modfuncs, json_alias, native):
         self.modfuncs, self.json, self.native = modfuncs, json_alias, native
+        self.bound = set()        # names bound at module level (a module that rebinds `getattr` does not mean the builtin)
         self.uid = 0
         self.problems = []        # (kind, key, detail, node): "construct" = a statement/expression form outside the adapter language
         self.overflow = False
@@ -278,6 +279,10 @@ class PyPaths:
                 if len(out) > self.MAX:
                     self.overflow = True
                     return out
+                if fv == ("global", "getattr") and "getattr" not in self.bound and not star and not kvs and len(vals) == 2 and vals[1][0] == "const" and isinstance(vals[1][1], str):
+                    # the builtin with a constant name is the attribute access `obj.name` (no call of the wrapper's own)
+                    out.append((("json", vals[1][1]) if vals[0] == ("jsonmod",) else ("attr", vals[0], vals[1][1]), s2))
+                    continue
                 if fv[0] == "func" and fv[1].name in self.stack:
                     # a helper that calls itself is a loop: outside the adapter language, like `for`/`while` (reported once)
                     if ("rec", fv[1].name) not in self.inlined:
@@ -450,6 +455,14 @@ def check_fn(ctx, f, sp, modfuncs):
         if isinstance(n, BANNED):
             ctx.fail("K1.construct", "%s:%s" % (name, type(n).__name__), "%s contains a %s — the wrapper must be a straight-line adapter (an except clause could swallow or re-type the ValueError)" % (name, type(n).__name__), where=w(n), fn=name)
     ev = PyPaths({k: v for k, v in modfuncs.items() if k != name}, f.json, f.native)
+    for node in f.mod.body:
+        for n in ([node] + list(ast.walk(node)) if not isinstance(node, (ast.FunctionDef, ast.ClassDef)) else [node]):
+            if isinstance(n, (ast.FunctionDef, ast.ClassDef)):
+                ev.bound.add(n.name)
+            elif isinstance(n, ast.Name) and isinstance(n.ctx, ast.Store):
+                ev.bound.add(n.id)
+            elif isinstance(n, ast.alias):
+                ev.bound.add((n.asname or n.name).split(".")[0])
     st0 = PyState(env={p: ("param", p) for p in f.order})
     paths = ev.block(fn.body, st0)
     for kind, key, detail, node in ev.problems:
@@ -597,8 +610,23 @@ def _case_atoms(cs, conds):
     return out
 
 
-def binding_table(ctx, facts, f, py):
-    """The inner binding function read as a decision table."""
+def _closure_applies(facts, ev):
+    """Calls of the library's apply in the closures handed to the call `ev` (a path event): the closures of a combinator
+    pipeline run as part of the way through the function (`.and_then(|(r, d)| crate::apply(&r, &d))`)."""
+    n = 0
+    for a in ev[2]:
+        x = strip_refs(a)
+        if x[0] == "agg" and x[1].get("closure"):
+            root = x[1]["closure"]
+            for b in facts.fns():
+                if b.key == root or b.key.startswith(root + "::{closure#"):
+                    n += sum(1 for _bi, t in b.calls() if callee_of(t) and _is_lib_apply(facts, ("call", callee_of(t), [], -1)))
+    return n
+
+
+def binding_table(ctx, facts, f, py, texts=(1, 2)):
+    """The binding function (the one that holds the two parses and the evaluation; its two texts are the parameters
+    numbered `texts`) read as a decision table."""
     fk = f.key.split("::", 1)[1]
     cs = optnorm.decision_cases(facts, f)
     if cs is None:
@@ -613,8 +641,8 @@ def binding_table(ctx, facts, f, py):
         x = _step_source(src)
         if x[0] == "call" and x[1] and x[1]["path"] == "serde_json::from_str":
             txt = strip_refs(x[2][0])
-            if "serde_json::Value" in (x[1].get("full") or "") and txt in (("arg", 1), ("arg", 2)):
-                return ("parse", txt[1])
+            if "serde_json::Value" in (x[1].get("full") or "") and txt in (("arg", texts[0]), ("arg", texts[1])):
+                return ("parse", 1 + texts.index(txt[1]))
             return ("other", show_expr(x)[:120])
         if _is_lib_apply(facts, x):
             return ("apply",)
@@ -627,7 +655,7 @@ def binding_table(ctx, facts, f, py):
         v = strip_refs(v)
         atoms = [(k, step_of(src), val) for (k, src, val) in _case_atoms(cs, conds)]
         failed = [(k, st) for (k, st, val) in atoms if val in ("Err", "None")]
-        napply = sum(1 for ev in path.events if _is_lib_apply(facts, ("call", ev[1], ev[2], ev[3])))
+        napply = sum(1 for ev in path.events if _is_lib_apply(facts, ("call", ev[1], ev[2], ev[3]))) + sum(_closure_applies(facts, ev) for ev in path.events)
         if v[0] == "agg" and v[1].get("variant") == "Ok":
             ok_cases.append((conds, v, path, atoms, failed, napply))
         elif _errish(v):
@@ -754,15 +782,27 @@ def check_native(ctx):
     py = [b for b in facts.fns() if "python_iface" in b.key and not b.span.get("exp")]
     ctx.need(py, "python interface functions not found")
     # inner: fn(&str,&str) -> Result<String,String>; wrapper: returns PyResult
-    wrapper = [b for b in py if b.kind == "fn" and "cpython::PyErr" in facts.items[b.key]["output"]]
-    inner = [b for b in py if b.kind == "fn" and facts.items[b.key]["inputs"] == ["&str", "&str"]]
+    # the wrapper is the function handed to Python: it takes the two texts and returns a value or an exception (other
+    # functions of the interface may mention PyErr too: one that builds the exception, one that fills the module)
+    wrapper = [b for b in py if b.kind == "fn" and re.match(r"^std::result::Result<.*, cpython::PyErr>$", facts.items[b.key]["output"]) and (facts.items[b.key]["inputs"] or [])[-2:] == ["&str", "&str"]]
+    inner = [b for b in py if b.kind == "fn" and facts.items[b.key]["inputs"] == ["&str", "&str"] and b not in wrapper]
     if len(inner) > 1 and len(wrapper) == 1:      # several (&str, &str) functions: the one the PyResult wrapper calls
         cg0, _ = facts.callgraph()
         inner = [b for b in inner if b.key in cg0.get(wrapper[0].key, ())] or inner
+    merged = False
+    if not inner and len(wrapper) == 1 and facts.items[wrapper[0].key]["inputs"][1:] == ["&str", "&str"]:
+        # one function does both jobs (the two parses, the evaluation and the conversion of the error to an exception):
+        # the same decision table, with the texts at the wrapper's positions; its rows are the wrapper's rows
+        merged = True
+        inner = wrapper
     ctx.need(len(inner) == 1 and len(wrapper) == 1, "binding functions not identified (inner %d, wrapper %d)" % (len(inner), len(wrapper)))
     f, w = inner[0], wrapper[0]
-    binding_table(ctx, facts, f, py)
-    wrapper_table(ctx, facts, f, w)
+    if merged:
+        binding_table(ctx, facts, w, py, texts=(2, 3))
+        ctx.ok("K2.wrapper", "the PyResult wrapper holds the parses and the evaluation itself: Ok(text) exactly when no step failed, an exception otherwise (its decision table, K2.serialises-result / K2.parse-errors-propagate)", nontrivial=True)
+    else:
+        binding_table(ctx, facts, f, py)
+        wrapper_table(ctx, facts, f, w)
     ctors = []
     for b in py:
         for bi, t in b.calls():
@@ -868,7 +908,35 @@ def check_native(ctx):
                     refs.add(b.key)
     cg, _ = facts.callgraph()
     referenced = any(w.key in cg.get(b.key, ()) for b in facts.fns() if "python_iface" in b.key and b.span.get("exp"))
-    ctx.check("apply" in names and referenced, "K2.module-export", "the module initialiser registers the wrapper as \"apply\"", "names registered by the initialiser: %s; wrapper referenced: %s" % (sorted(n for n in names if len(n) < 20), referenced), where=w.where(), fn=w.key)
+
+    def reach(roots):
+        seen, st = set(), list(roots)
+        while st:
+            k = st.pop()
+            if k in seen:
+                continue
+            seen.add(k)
+            st.extend(cg.get(k, ()))
+        return seen
+    # wherever the registration is written (in the initialiser's own body or in a function it calls): a call
+    # PyModule::add(m, py, "apply", <callable>) that the initialiser reaches, whose callable — the py_fn! glue nested in
+    # the function that makes the call — reaches the wrapper
+    loose, names = names, set()       # every string constant of the glue (kept for the report only)
+    init_reach = reach([k for k in facts.items if "python_iface" in k and k.endswith("PyInit_jsonlogic")])
+    for b in facts.fns():
+        if b.key not in init_reach:
+            continue
+        for bi, t in b.calls():
+            if callee_path(t) == "cpython::PyModule::add" and len(t["args"]) >= 4:
+                nm = strip_refs(b.trace(t["args"][2]))
+                nm = const_value(nm[1]) if nm[0] == "const" else None
+                if isinstance(nm, str):
+                    glue = reach([k for k in facts.items if k.startswith(b.key + "::") and facts.body(k) is not None and facts.body(k).span.get("exp")])
+                    if nm != "apply" or w.key in glue:
+                        names.add(nm)
+                    else:
+                        names.add("%s (not the wrapper)" % nm)
+    ctx.check("apply" in names and referenced, "K2.module-export", "the module initialiser registers the wrapper as \"apply\"", "names registered by the initialiser (PyModule::add): %s; wrapper referenced by the glue: %s" % (sorted(names), referenced), where=w.where(), fn=w.key)
     inits = [k for k in facts.items if "python_iface" in k and k.endswith("PyInit_jsonlogic")]
     ctx.check(bool(inits), "K2.module-name", "the extension module is initialised as `jsonlogic` (PyInit_jsonlogic)", "no PyInit_jsonlogic symbol", where=w.where())
 
